@@ -551,6 +551,20 @@ def rule_filtered_view(ctx: Ctx, out: Collector) -> None:
                 expect = [not case.startswith('flagged')]
                 if vals != expect:
                     problems.append(f'{case} -> {vals} (expected {expect})')
+            if which == 'filter_node':
+                # a candidate of one one-of that another node consumes through a plain input must stay visible to the
+                # sub-dags of that consumer, started or not: otherwise the consumer's sub-dag is cut off from the input
+                cons2 = f'{unit.module.name}::{unit.qualname}::filter_node keeps a one-of candidate that another node consumes directly'
+                t2 = _eval_filter(ctx, unit, which, i.unit, extra_case=True)        # AnalysisError = undecided, never a verdict
+                vals2 = next(iter(t2.values()))
+                if vals2 == [True]:
+                    out.ok('SW-1', cons2, ctx.p.loc(unit, unit.node), 'visible', props={'C02', 'C10'})
+                else:
+                    out.bad('SW-1', cons2, ctx.p.loc(unit, unit.node),
+                            f'a node that is a candidate of one one-of and a plain input of another node is hidden from every sub-dag '
+                            f'until its own one-of starts it ({vals2}): when the consumer is itself a candidate of a one-of that is '
+                            f'scheduled first, its sub-dag is cut off from the input, it is never launched and the run waits forever',
+                            props={'C02', 'C10'})
             if not problems:
                 out.ok('SW-1', cons, ctx.p.loc(unit, unit.node), f'{table}')
             else:
@@ -562,18 +576,22 @@ def rule_filtered_view(ctx: Ctx, out: Collector) -> None:
                                                                   f'elements: {"; ".join(problems)}', props=props)
 
 
-def _eval_filter(ctx: Ctx, unit: FuncUnit, which: str, parent: FuncUnit) -> Dict[str, List]:
+def _eval_filter(ctx: Ctx, unit: FuncUnit, which: str, parent: FuncUnit, extra_case: bool = False) -> Dict[str, List]:
     p = ctx.p
     mgr_cls = ctx.manager_class()
     table = {}
     if which == 'filter_edge':
         cases = {'plain edge': {}, 'kwarg edge': {'kwarg_name': 'x'}, 'flagged case_branch edge': {'case_branch': 'a', 'kwarg_name': None}}
+    elif extra_case:
+        cases = {'candidate consumed directly by another node (not started)': {'is_oneof_child': True}}
     else:
         cases = {'plain node': {}, 'flagged is_oneof_child (not started)': {'is_oneof_child': True},
                  'started is_oneof_child': {'is_oneof_child': True}}
     for cname, attrs in cases.items():
         def run(oracle: Oracle, attrs=attrs, cname=cname):
-            graph = AObj(('ext', 'networkx.DiGraph'), {'edges': {('U', 'V'): dict(attrs)}, 'nodes': {'U': dict(attrs), 'V': {}}})
+            edge_attrs = dict(attrs) if not extra_case else {'kwarg_name': 'x'}        # U -> V is a plain dependency edge
+            graph = AObj(('ext', 'networkx.DiGraph'), {'edges': {('U', 'V'): edge_attrs}, 'nodes': {'U': dict(attrs), 'V': {}},
+                                                       'succ': {'U': {'V': edge_attrs}, 'V': {}}, 'pred': {'V': {'U': edge_attrs}, 'U': {}}})
             the_dag = AObj(('ext', 'DAG'), {'graph': graph, 'input_node': 'I', 'output_node': 'V', 'node_map': TOP})
             mgr = AObj(mgr_cls, {'dag': the_dag, 'ctx': TOP})
             for name, (ann, default) in mgr_cls.fields.items():
